@@ -255,6 +255,7 @@ var sharedPool = []sharedRule{
 	{"prefetch-handoff", func(c *Ctx, r string) { checkPrefetchHandoff(c, r) }},
 	{"writer-write-shape", func(c *Ctx, r string) { checkWriterWriteShape(c, r) }},
 	{"writer-flush-shape", func(c *Ctx, r string) { checkWriterFlushShape(c, r) }},
+	{"guarded-core", func(c *Ctx, r string) { checkGuardedTable(c, r) }},
 	{"effects", func(c *Ctx, r string) {
 		checkEffectDominance(c, r, "pkg/cafs", "pkg/core", "pkg/fuse", "pkg/storage/localfs", "pkg/wal", "pkg/filetracker")
 	}},
